@@ -279,7 +279,8 @@ def record(tier):
 IN_VIVO = ("two_delays_same_pair", "two_delays_same_pair_rev", "two_trigger_delays",
            "two_trigger_delays_rev", "two_delays_shift2_pair", "two_delays_shift2_pair_rev",
            "two_paths_shift2", "E_chain_shift_last_W", "sibling_groups", "nested_groups",
-           "weak_and_shift_init", "loop_weak_then_plain", "group_reentry", "nested_detour",
+           "weak_and_shift_init", "loop_weak_then_plain", "group_reentry", "nested_detour", "two_trigger_delays_upstream",
+           "two_trigger_delays_upstream_rev",
            "weak_direct_plus_plain_path")
 
 
